@@ -293,6 +293,16 @@ Theorem nm_cycle_reads_every_pack :
 Proof. exact nm_cycle_covers. Qed.
 Print Assumptions nm_cycle_reads_every_pack.
 
+(* The check walks the root tree of EVERY snapshot file of the repository: Repository::check collects
+   them with get_all_snapshots (no filter, e.g. not "except snapshots whose delete-after time has
+   passed" — those are still in the repository and restorable) and check_repository walks exactly
+   the trees it is handed (regenerated from repository.rs / check.rs).  All soundness theorems
+   quantify over `In r (st_roots st)`, i.e. over every snapshot. *)
+Theorem check_covers_every_snapshot :
+  forall (B : Type) (st : state B), checked_roots B st = st_roots st.
+Proof. reflexivity. Qed.
+Print Assumptions check_covers_every_snapshot.
+
 (* The facts regenerated from the current source (Extracted.v) are the ones the model is written
    against: check_trees collects the packs of the root trees, of subtrees and of file chunks (three
    insert sites); read_data reads the indexed packs that are not missing and are in that set;
@@ -309,6 +319,10 @@ Theorem source_facts_as_modelled :
   x_unreadable_index_aborts_check = true /\ x_unreadable_index_aborts_restore = true /\
   x_subset_reduces_n = true /\ x_reads_all_copies = true /\ x_subset_shape = true /\
   x_subset_fits_exactly = true /\
+  x_check_covers_all_snapshots = true /\ x_check_with_trees_passes_trees = true /\
+  x_given_trees_are_walked = true /\ x_check_reads_all_index_files = true /\
+  x_pack_listing_from_backend = true /\ x_trust_cache_only_guards_cache = true /\
+  x_read_data_gates_pack_reading = true /\
   x_length_len = 4 /\ x_comp_overhead = 32 /\ x_entry_len = 37 /\ x_entry_len_compressed = 41.
 Proof. repeat split; reflexivity. Qed.
 Print Assumptions source_facts_as_modelled.
